@@ -62,12 +62,14 @@ VALUES = {
     'MIME-Version': {
         'good': ['1.0'],
         'boiler': [],
-        'bad': ['', '1', '1.00', '1.0.', '1,0', '01.0', '1.1', '2.0', '1.0 (produced by x)', '1 .0', '1.O', '１.０', '1.0\t1.0', '"1.0"'],
+        'bad': ['', '1', '1.00', '1.0.', '1,0', '01.0', '1.1', '2.0', '1.0 (produced by x)', '1 .0', '1.O', '１.０', '1.0\t1.0', '"1.0"',
+                '1.0\r', '1.0\x0c', '1.0\u00a0', '\x0b1.0', '1.0\x1f', '\u20031.0', '1.0\x85'],
     },
     'Content-Transfer-Encoding': {
         'good': ['8bit'],
         'boiler': ['ENCODING'],
-        'bad': ['', '8BIT', '8Bit', '7bit', '8 bit', '8bits', 'binary', 'base64', 'quoted-printable', '８bit', '8bit;', '"8bit"'],
+        'bad': ['', '8BIT', '8Bit', '7bit', '8 bit', '8bits', 'binary', 'base64', 'quoted-printable', '８bit', '8bit;', '"8bit"',
+                '8bit\r', '8bit\x0c', '8bit\u00a0', '\x0b8bit', '8bit\x1f', '\u20038bit'],
     },
     'Content-Type': {
         'good': ['text/plain; charset=UTF-8', 'text/plain; charset=ISO-8859-2', 'text/plain; charset=utf-8', 'text/plain; charset=KOI8-R',
@@ -216,13 +218,23 @@ def header_lines(rng, profile=None):
             else:
                 fields.append([None, rng.choice(STRAYS)])
         rng.shuffle(fields)
+    if rng.random() < 0.08:
+        trs = [f[1] for f in fields if f[0] == 'Last-Translator']
+        teams = [f for f in fields if f[0] == 'Language-Team']
+        if trs and teams:
+            tr = rng.choice(trs)
+            import email.utils
+            addr = email.utils.parseaddr(tr)[1]
+            rng.choice(teams)[1] = rng.choice([tr, addr, 'Team <' + addr + '>', addr.upper(), tr + ' '])
+            if rng.random() < 0.4:
+                fields.append(['Last-Translator', rng.choice(['Other <' + addr + '>', 'Zed <' + addr + '>', tr])])
     lines = []
     for k, v in fields:
         if k is None:
             lines.append(v)
         else:
             sep = rng.choice([': ', ': ', ': ', ':', ':  ', ':\t', ': \t '])
-            tail = rng.choice(['', '', '', ' ', '\t'])
+            tail = rng.choice(['', '', '', '', '', ' ', '\t', ' \t ', '\r', '\x0c', '\u00a0'] if rng.random() < 0.25 else [''])
             lines.append(k + sep + v.replace('\n', ' ') + tail)
     if rng.random() < 0.06:
         i = rng.randrange(len(lines) + 1)
